@@ -44,6 +44,10 @@ func c12Strategy(threshold int) CompactionStrategy {
 var c12Workers = map[*server.Store]*CompactionWorker{}
 
 func c12Compact(w *server.VWorld, h *server.VHist, abs string, threshold int) error {
+	return c12Worker(w).compact(h.DsName(abs), c12Strategy(threshold))
+}
+
+func c12Worker(w *server.VWorld) *CompactionWorker {
 	cw := c12Workers[w.Store]
 	if cw == nil {
 		if len(c12Workers) > 8 {
@@ -52,7 +56,7 @@ func c12Compact(w *server.VWorld, h *server.VHist, abs string, threshold int) er
 		cw = NewCompactor(w.Store, w.Dsm, zap.NewNop().Sugar())
 		c12Workers[w.Store] = cw
 	}
-	return cw.compact(h.DsName(abs), c12Strategy(threshold))
+	return cw
 }
 
 type c12Instant struct {
